@@ -179,6 +179,15 @@ Fixpoint update (p : list jv) (v : jv) (n : jv) : res jv :=
 
 Definition setpath (p : list jv) (x : jv) (v : jv) : res jv := update p v x.
 
+(* every array is shorter than the largest index setpath accepts (0x20000000) *)
+Fixpoint smallb (v : jv) : bool :=
+  match v with
+  | JArr l => (len l <=? max_index) && forallb smallb l
+  | JObj m => forallb (fun kv => smallb (snd kv)) m
+  | _ => true
+  end.
+Definition small (v : jv) : Prop := smallb v = true.
+
 (* ------------------------------------------------------------------ paths *)
 
 Fixpoint seqZ (start : Z) (n : nat) : list Z :=
@@ -186,20 +195,22 @@ Fixpoint seqZ (start : Z) (n : nat) : list Z :=
 
 (* builtin.jq: def paths: path(..) | select(. != []);   with  def recurse: recurse(.[]?)
    i.e. pre-order, children in index / sorted-key order, root dropped *)
+Definition paths_arr_go (f : jv -> list (list jv)) :=
+  fix go (i : Z) (l : list jv) : list (list jv) :=
+    match l with
+    | [] => []
+    | c :: r => ([JInt i] :: map (cons (JInt i)) (f c)) ++ go (i + 1) r
+    end.
+Definition paths_obj_go (f : jv -> list (list jv)) :=
+  fix go (m : list (str * jv)) : list (list jv) :=
+    match m with
+    | [] => []
+    | (k, c) :: r => ([JStr k] :: map (cons (JStr k)) (f c)) ++ go r
+    end.
 Fixpoint paths (v : jv) : list (list jv) :=
   match v with
-  | JArr l =>
-      (fix go (i : Z) (l : list jv) : list (list jv) :=
-         match l with
-         | [] => []
-         | c :: r => ([JInt i] :: map (cons (JInt i)) (paths c)) ++ go (i + 1) r
-         end) 0 l
-  | JObj m =>
-      (fix go (m : list (str * jv)) : list (list jv) :=
-         match m with
-         | [] => []
-         | (k, c) :: r => ([JStr k] :: map (cons (JStr k)) (paths c)) ++ go r
-         end) m
+  | JArr l => paths_arr_go paths 0 l
+  | JObj m => paths_obj_go paths m
   | _ => []
   end.
 
@@ -269,20 +280,22 @@ Definition ev_prepend (k : jv) (e : event) : event :=
                  reduce path(.[]?) as $q ([$p, .]; [$p + $q]);
    r visits children before the node; a node without children yields [$p, node], a node with
    children yields [$p + [last child key]] *)
+Definition ts_arr_go (f : jv -> list event) :=
+  fix go (i : Z) (l : list jv) : list event :=
+    match l with
+    | [] => []
+    | c :: r => map (ev_prepend (JInt i)) (f c) ++ go (i + 1) r
+    end.
+Definition ts_obj_go (f : jv -> list event) :=
+  fix go (m : list (str * jv)) : list event :=
+    match m with
+    | [] => []
+    | (k, c) :: r => map (ev_prepend (JStr k)) (f c) ++ go r
+    end.
 Fixpoint tostream (v : jv) : list event :=
   match v with
-  | JArr (c0 :: r0) =>
-      (fix go (i : Z) (l : list jv) : list event :=
-         match l with
-         | [] => []
-         | c :: r => map (ev_prepend (JInt i)) (tostream c) ++ go (i + 1) r
-         end) 0 (c0 :: r0) ++ [EClose [JInt (len (c0 :: r0) - 1)]]
-  | JObj ((k0, c0) :: r0) =>
-      (fix go (m : list (str * jv)) : list event :=
-         match m with
-         | [] => []
-         | (k, c) :: r => map (ev_prepend (JStr k)) (tostream c) ++ go r
-         end) ((k0, c0) :: r0) ++ [EClose [JStr (fst (last r0 (k0, c0)))]]
+  | JArr (c0 :: r0) => ts_arr_go tostream 0 (c0 :: r0) ++ [EClose [JInt (len (c0 :: r0) - 1)]]
+  | JObj ((k0, c0) :: r0) => ts_obj_go tostream ((k0, c0) :: r0) ++ [EClose [JStr (fst (last r0 (k0, c0)))]]
   | _ => [ELeaf [] v]
   end.
 
